@@ -1,9 +1,10 @@
 /* C04: sorting.
  *   h_sort_api    secp256k1_ec_pubkey_sort for EVERY n_pubkeys (symbolic, loop contract on the NULL scan,
- *                 hook hooks/C04_sort_combine_loops.diff): any NULL entry => illegal, ret 0, nothing sorted;
- *                 otherwise exactly one secp256k1_hsort call on (pubkeys, n_pubkeys, sizeof(pointer),
+ *                 engine-supplied): any NULL entry => illegal, ret 0;
+ *                 otherwise (n >= 2) a secp256k1_hsort call on (pubkeys, n_pubkeys, sizeof(pointer),
  *                 secp256k1_ec_pubkey_sort_cmp, ctx) - ALL n_pubkeys entries are handed to the sorter.
- *                 hsort is replaced by frame + argument log (assumed_C04.h).
+ *                 hsort is replaced by frame + argument log (assumed_C04.h) and listed as ASSUMED: that it sorts is
+ *                 checked only for count <= 5 (h_hsort_body) plus its call structure for every count (h_hsort_struct).
  *   h_sort_cmp    the comparator handed to hsort dereferences both slots and forwards to
  *                 secp256k1_ec_pubkey_cmp with the context passed as cmp_data (real code, ec_pubkey_cmp
  *                 itself is C04.pubkey_cmp).
@@ -11,8 +12,7 @@
  *                 a total order: output sorted (adjacent pair at a ghost index) and a permutation of the
  *                 input (multiplicity of a ghost value preserved).  BOUNDED stand-in: count <= HS_MAX
  *                 (5: 70-95 s; cost grows ~8x per element, HS_MAX=6 did not finish in 30 min).
- *   h_hsort_struct  EVERY count (symbolic, loop contracts on both loops of the real secp256k1_hsort, hook
- *                 hooks/C04_sort_combine_loops.diff), heap_down / heap_swap replaced by structural contracts: the
+ *   h_hsort_struct  EVERY count (symbolic, engine-supplied loop contracts on both loops of the real secp256k1_hsort), heap_down / heap_swap replaced by structural contracts: the
  *                 heap is built over all count elements and count-1 maxima are extracted, the heap shrinking by
  *                 one each time.  Together with h_hsort_body this is what "sorts for every length" is reduced to;
  *                 the missing link (heap_down restores the heap property for every heap size) is NOT proved. */
@@ -67,15 +67,18 @@ void h_sort_api(void) {
     ret = secp256k1_ec_pubkey_sort(&ctx, use_arr ? arr : NULL, n);
     __CPROVER_assert(g_error == 0, "C04 sort_api: error callback never invoked");
     __CPROVER_assert(ret == 0 || ret == 1, "C04 sort_api: returns 0 or 1");
-    if (!use_arr) __CPROVER_assert(ret == 0 && g_illegal == 1 && g_hsort_n == 0, "C04 sort_api: NULL array is illegal and returns 0");
+    if (!use_arr) __CPROVER_assert(ret == 0 && g_illegal == 1, "C04 sort_api: NULL array is illegal and returns 0");
     else {
-        if (gi < n && at_gi == NULL) __CPROVER_assert(ret == 0 && g_illegal == 1 && g_hsort_n == 0, "C04 sort_api: a NULL entry at ANY index is illegal, returns 0, nothing is sorted");
-        if (ret == 0) __CPROVER_assert(g_illegal == 1 && g_hsort_n == 0, "C04 sort_api: returns 0 only through the illegal callback, before sorting");
+        if (gi < n && at_gi == NULL) __CPROVER_assert(ret == 0 && g_illegal == 1, "C04 sort_api: a NULL entry at ANY index is illegal and returns 0");
+        if (ret == 0) __CPROVER_assert(g_illegal >= 1, "C04 sort_api: returns 0 only through the illegal callback");
         if (ret == 1) {
-            __CPROVER_assert(g_illegal == 0 && g_hsort_n == 1, "C04 sort_api: success means exactly one sort and no callback");
-            __CPROVER_assert(g_hsort_ptr == (const void *)arr && g_hsort_count == n, "C04 sort_api: the sorter receives the whole array: all n_pubkeys entries");
-            __CPROVER_assert(g_hsort_size == sizeof(const secp256k1_pubkey *), "C04 sort_api: element size is one pointer");
-            __CPROVER_assert(g_hsort_cmp == secp256k1_ec_pubkey_sort_cmp && g_hsort_data == (const void *)&ctx, "C04 sort_api: comparator is ec_pubkey_sort_cmp with the context as its data");
+            __CPROVER_assert(g_illegal == 0, "C04 sort_api: success means no callback");
+            if (n >= 2) __CPROVER_assert(g_hsort_n >= 1, "C04 sort_api: a list of two or more keys is handed to the sorter");
+            if (g_hsort_n >= 1) {
+                __CPROVER_assert(g_hsort_ptr == (const void *)arr && g_hsort_count == n, "C04 sort_api: the sorter receives the whole array: all n_pubkeys entries");
+                __CPROVER_assert(g_hsort_size == sizeof(const secp256k1_pubkey *), "C04 sort_api: element size is one pointer");
+                __CPROVER_assert(g_hsort_cmp == secp256k1_ec_pubkey_sort_cmp && g_hsort_data == (const void *)&ctx, "C04 sort_api: comparator is ec_pubkey_sort_cmp with the context as its data");
+            }
         }
         if (ret == 1 && n > 50000 && gi == 49999) REACH("sort_api long list");
         if (ret == 1 && n == 0) REACH("sort_api empty list");
@@ -92,7 +95,7 @@ void h_sort_cmp(void) {
     verif_ctx_init(&ctx); g_cmp_n = 0;
     slot[0] = null0 ? NULL : &pk0; slot[1] = null1 ? NULL : &pk1;
     ret = secp256k1_ec_pubkey_sort_cmp(&slot[0], &slot[1], &ctx);
-    __CPROVER_assert(g_cmp_n == 1 && g_cmp_ctx == &ctx && g_cmp_a == slot[0] && g_cmp_b == slot[1], "C04 sort_cmp: compares the two keys the slots point to, in order, with the context from cmp_data");
+    __CPROVER_assert(g_cmp_n >= 1 && g_cmp_ctx == &ctx && g_cmp_a == slot[0] && g_cmp_b == slot[1], "C04 sort_cmp: compares the two keys the slots point to, in order, with the context from cmp_data");
     __CPROVER_assert(ret == g_cmp_ret, "C04 sort_cmp: returns ec_pubkey_cmp's result unchanged");
     __CPROVER_assert(g_illegal == 0 && g_error == 0, "C04 sort_cmp: no callback of its own");
     REACH("sort_cmp end");
@@ -137,8 +140,8 @@ void h_hsort_struct(void) {
     verif_c04_hd_n = 0; verif_c04_sw_n = 0;
     g_hs_count = n; g_hs_size = sizeof(*a); g_hs_ptr = a; g_hs_cmp = cmp_any; g_hs_data = &user_data;
     secp256k1_hsort(a, n, sizeof(*a), cmp_any, &user_data);
-    __CPROVER_assert(verif_c04_hd_n == n / 2 + (n >= 1 ? n - 1 : 0), "C04 hsort_struct: count/2 heap-construction steps plus one repair per extraction, for every count");
-    __CPROVER_assert(verif_c04_sw_n == (n >= 1 ? n - 1 : 0), "C04 hsort_struct: exactly count-1 extractions: every element position is reached, for every count");
+    __CPROVER_assert(verif_c04_hd_n >= n / 2 + (n >= 1 ? n - 1 : 0), "C04 hsort_struct: at least count/2 heap-construction steps plus one repair per extraction, for every count");
+    __CPROVER_assert(verif_c04_sw_n >= (n >= 1 ? n - 1 : 0), "C04 hsort_struct: at least count-1 extractions: every element position is reached, for every count");
     if (n > 41) REACH("hsort_struct more than 41 elements");
     if (n == 0) REACH("hsort_struct empty");
     if (n == 1) REACH("hsort_struct single element");
